@@ -230,15 +230,6 @@ fn canary_must_fail() {
     obs, cmd, out = kani.run_harnesses(crate, specs, NAME, "num", jobs=12, timeout=3000,
                                        harness_timeout="12m" if tier == "thorough" else "6m",
                                        extra_flags=["--no-overflow-checks", "--no-assertion-reach-checks"])
-    nplay = 0
-    for o in obs:
-        if o.status == "failed" and o.kind == "proof":
-            o.output = out[-6000:]
-            nplay += 1
-            if nplay <= 1:
-                try:
-                    o.playback = kani.playback(crate, o.name, "num")
-                except Exception as ex:
-                    o.playback = {"error": repr(ex)}
+    kani.attach_counterexamples(obs, crate, "num", out)
     meta["note"] = "CBMC-level --no-overflow-checks: Rust's own overflow/div/shift panics are MIR assertions and ARE checked; what is off are CBMC's NaN / float-overflow / pointer-overflow instrumentation"
     return obs, meta, cmd
